@@ -22,6 +22,12 @@
             _ => false,
         }
     }
+    /// ExprString::to_bigint: the encoded bytes as one integer (uninterpreted here)
+    pub uninterp spec fn str_bigint(s: ExprString) -> util::BigInt;
+    /// what Value::get_bigint yields for the two numeric variants
+    pub open spec fn num_of(v: Value) -> util::BigInt {
+        match v { Value::Integer(x) => x, Value::String(s) => str_bigint(s), _ => arbitrary() }
+    }
     /// the same value for everything that reads it: equal, and for integers of the same size (`sizeof`,
     /// concatenation and slices read the size, which util::BigInt's equality ignores)
     pub open spec fn value_same(a: Value, b: Value) -> bool {
